@@ -35,8 +35,10 @@ type c18Scenario struct {
 	// created: creation time of container i in unix seconds (default 0); the fake daemon of such a scenario answers
 	// with the frames inside the requested window only, as the daemon does
 	created func(i int) int64
-	query  string
-	params logqlengine.EvalParams
+	// stamp: the timestamp text of record j of container i, when it is not the regular one ("" = regular)
+	stamp func(i, j int) string
+	query   string
+	params  logqlengine.EvalParams
 }
 
 func c18Range() logqlengine.EvalParams {
@@ -89,6 +91,28 @@ var c18Scenarios = []c18Scenario{
 	// second): the listed order counts, in every evaluation
 	{name: "distinct-two-labels-1", n: 1, msg: func(i, j int) string { return []string{"a=1 b=1", "a=2 b=1", "a=2 b=3"}[j] }, query: `{} | logfmt | distinct a, b`, params: c18Log()},
 	{name: "distinct-three-labels-2", n: 2, msg: func(i, j int) string { return []string{"a=1 b=1 c=1", "a=2 b=1 c=2", "a=2 b=3 c=2"}[(i+j)%3] }, query: `count_over_time({} | logfmt | distinct c, a, b [10s])`, params: c18Range()},
+	// more labels than any small fixed capacity (9 built-in ones, msg and 30 Docker labels)
+	{name: "forty-labels-2", n: 2, query: `{} | drop msg`, params: c18Log(), labels: func(i int) map[string]string {
+		m := map[string]string{}
+		for k := 0; k < 30; k++ {
+			m[fmt.Sprintf("l%02d", k)] = fmt.Sprintf("v%d-%d", i, k)
+		}
+		return m
+	}},
+	{name: "forty-labels-count-2", n: 2, query: `sum by (l00, l17, l29, container) (count_over_time({}[4s]))`, params: c18Range(), labels: func(i int) map[string]string {
+		m := map[string]string{}
+		for k := 0; k < 30; k++ {
+			m[fmt.Sprintf("l%02d", k)] = fmt.Sprintf("v%d-%d", i, k)
+		}
+		return m
+	}},
+	// a frame whose timestamp cannot be read: whatever the answer is (an error), it is the same answer every time
+	{name: "bad-stamp-2", n: 2, query: `{}`, params: c18Log(), stamp: func(i, j int) string {
+		if i == 1 && j == 1 {
+			return "yesterday"
+		}
+		return ""
+	}},
 	// containers created inside the queried range (after its start), next to older ones; the daemon honours since/until
 	{name: "young-log-3", n: 3, query: `{}`, params: c18Log(), created: func(i int) int64 { return []int64{0, 2, 0}[i] }},
 	{name: "young-count-3", n: 3, query: `sum(count_over_time({}[4s]))`, params: c18Range(), created: func(i int) int64 { return []int64{3, 0, 2}[i] }},
@@ -136,7 +160,11 @@ func c18Containers(sc c18Scenario) []fakedocker.Container {
 			if sc.ties {
 				ts = int64(1+j) * c18sec
 			}
-			recs = append(recs, fakedocker.Rec{Stream: byte(1 + j%2), TS: fakedocker.TS(ts), Msg: c18Msg(sc, i, j)})
+			stamp := fakedocker.TS(ts)
+			if sc.stamp != nil && sc.stamp(i, j) != "" {
+				stamp = sc.stamp(i, j)
+			}
+			recs = append(recs, fakedocker.Rec{Stream: byte(1 + j%2), TS: stamp, Msg: c18Msg(sc, i, j)})
 		}
 		var labels map[string]string
 		if sc.labels != nil {
